@@ -43,6 +43,10 @@ func (ex *Exec) externalGlobal(g *ssa.Global, elem types.Type) Value {
 			n := ex.idxConst(int64(len(bs)))
 			v = ex.mkSlice(o, ex.idxConst(0), n, n)
 		default:
+			if st, ok := elem.Underlying().(*types.Struct); ok && st.NumFields() == 0 {
+				v = ex.zero(elem) // e.g. encoding/binary.BigEndian
+				break
+			}
 			panic(ex.unsupported("external global %s", name))
 		}
 	}
